@@ -57,6 +57,7 @@ def world_oracle(scen, obs):
 def shim_world_part(ctx, diffs):
     import drvlib as D
     probe(ctx, diffs)
+    cli_part(ctx)
     rows = D.run_both(ctx, world_scens(ctx, 60 if ctx.tier == 'quick' else 800))
     for scen, obs, real, model in rows:
         ctx.count()
@@ -69,9 +70,92 @@ def shim_world_part(ctx, diffs):
             ctx.nontrivial(('world', D.scen_key(scen)))
 
 
+CLI_CASES = [
+    # (name, files {path: (bytes, mode)}, test cases, predicate, extra options)
+    ('plain', {'a.c': (b'int a;\n\n\nint b;\n', 0o640), 'sub/b.c': (b'int c;\n\nint d;\n', 0o604), 'notes.txt': (b'keep\n', 0o600)},
+     ['a.c', 'sub/b.c'], 'grep -q "int a" a.c && grep -q "int c" sub/b.c', []),
+    ('to-utf8', {'a.c': (b'int a; /* caf\xe9 */\n\n\nint b;\n', 0o640), 'sub/b.c': (b'int c;\n\nint d;\n', 0o604), 'l.c': ('int \u00e9;\n\n'.encode('utf-8'), 0o666)},
+     ['a.c', 'sub/b.c', 'l.c'], 'grep -q "int a" a.c && grep -q "int c" sub/b.c', ['--to-utf8']),
+    ('to-utf8-existing-orig', {'a.c': (b'int a; /* na\xefve */\n\n\nint b;\n', 0o755), 'a.c.orig': (b'older backup\n', 0o444)},
+     ['a.c'], 'grep -q "int a" a.c', ['--to-utf8']),
+    ('tidy', {'a.c': (b'int a;\n\n\nint b;\n', 0o600)}, ['a.c'], 'grep -q "int a" a.c', ['--tidy']),
+    ('log-file-and-diff', {'a.c': (b'int a;\n\n\nint b;\n', 0o644)}, ['a.c'], 'grep -q "int a" a.c', ['--print-diff', '--log-file', 'run.log']),
+]
+
+
+def cli_part(ctx, only=None):
+    """the front end run for real, from the command line to the end of a (tiny) reduction: afterwards every test case has its
+    original mode, X.orig holds the bytes X had before the program was started (an existing X.orig is untouched), and nothing
+    but test cases, their backups, report directories and a log file that was asked for has changed in the working directory"""
+    import json
+    import os
+    import tempfile
+    from pathlib import Path
+    import cliprobe
+    stub = cliprobe.stub_dir(ctx.scratch)
+    ran = 0
+    for name, files, tcs, pred, opts in CLI_CASES:
+        if only and name != only:
+            continue
+        wd = Path(tempfile.mkdtemp(prefix='c04cli-', dir=ctx.scratch))
+        tmpd = Path(tempfile.mkdtemp(prefix='c04tmp-', dir=ctx.scratch))
+        for f, (data, mode) in files.items():
+            (wd / f).parent.mkdir(parents=True, exist_ok=True)
+            (wd / f).write_bytes(data)
+            os.chmod(wd / f, mode)
+        (wd / 'test.sh').write_text('#!/bin/sh\n' + pred + '\n')
+        os.chmod(wd / 'test.sh', 0o755)
+        (wd / 'tiny.json').write_text(json.dumps({'first': [{'pass': 'blank'}], 'main': [{'pass': 'blank'}], 'last': []}))
+        before = {e[0]: e for e in cliprobe.listing(wd)}
+        rc, out, _ = cliprobe.run_cli(stub, ['--n', '1', '--pass-group-file', 'tiny.json', '--skip-key-off'] + opts + ['./test.sh'] + tcs, wd, tmpdir=tmpd, timeout=300)
+        after = {e[0]: e for e in cliprobe.listing(wd)}
+        ctx.count()
+        scen = {'kind': 'cli', 'case': name}
+        if rc != 0 or ('done' not in out and '--log-file' not in opts):
+            if 'Traceback' in out and 'chardet' in out:
+                raise RuntimeError('front end could not be started: ' + out[-300:])
+            ctx.report(f'front-end-run-failed:{name}', f'cvise.py {opts} on {tcs}: exit {rc}: {out[-300:]}', scen)
+            continue
+        ran += 1
+        reduced = False
+        for t in tcs:
+            if after[t][2] != before[t][2]:
+                ctx.report('test-case-mode-not-restored:front-end', f'{name}: {t} had mode {before[t][2]:o} before `cvise.py {" ".join(opts)}` and has {after[t][2]:o} after it', scen)
+            reduced = reduced or after[t][1] != before[t][1]
+            if '--tidy' in opts:
+                if t + '.orig' in after:
+                    ctx.report('backup-written-under-tidy:front-end', f'{name}: {t}.orig exists after a --tidy run', scen)
+                continue
+            want = before[t + '.orig'][1] if t + '.orig' in before else before[t][1]
+            if t + '.orig' not in after:
+                ctx.report('orig-missing:front-end', f'{name}: no {t}.orig after the run', scen)
+            elif after[t + '.orig'][1] != want:
+                ctx.report('existing-orig-overwritten:front-end' if t + '.orig' in before else 'orig-differs-from-the-original:front-end',
+                           f'{name}: {t}.orig holds {after[t + ".orig"][1][:40]!r}, the bytes before the program was started were {want[:40]!r}', scen)
+        allowed = set(tcs) | {t + '.orig' for t in tcs} | ({'run.log'} if '--log-file' in opts else set())
+        for f, e in after.items():
+            if f in allowed or f.startswith('cvise_bug_') or f.startswith('cvise_extra_'):
+                continue
+            if f not in before:
+                ctx.report('unexpected-file-in-the-working-directory:front-end', f'{name}: {f} appeared', scen)
+            elif e != before[f]:
+                ctx.report('file-other-than-a-test-case-changed:front-end', f'{name}: {f} changed', scen)
+        for f in before:
+            if f not in after:
+                ctx.report('file-disappeared:front-end', f'{name}: {f} is gone', scen)
+        left = [x for x in os.listdir(tmpd) if not x.startswith('pymp-')]
+        if reduced:
+            ctx.nontrivial(('cli', name))
+    ctx.notes['front_end_runs'] = ran
+
+
 def run(ctx):
     if ctx.replay:
         import json
+        if json.load(open(ctx.replay)).get('kind') == 'cli':
+            cli_part(ctx, only=json.load(open(ctx.replay))['case'])
+            print('replayed ->', 'fails' if ctx.violations else 'holds')
+            return 1 if ctx.violations else 0
         if json.load(open(ctx.replay)).get('kind') == 'drv-world':
             import drvlib as D
             import harness_drv as H
